@@ -7,7 +7,21 @@ HISTORIES   fresh-process oracle.  A pool of call descriptors (vt/monitors/c10_c
             descriptors are executed, each sequence in its own long-lived worker process, and every
             step's canonical result is compared with the fresh-interpreter result of the same call.
 STATE       snapshot of model.asjson(), model.config.asdict() and every passed ParserConfig around
-            every parse (in the fresh evaluations, in the histories and in the thread runs).
+            every parse (in the fresh evaluations, in the histories and in the thread runs), and a deep
+            canonical snapshot of EVERY caller-owned mutable argument (constructors lists, typedefs
+            lists with their dict/module containers, BuilderConfig, ParserConfig, keywords lists,
+            semantics objects, a ModelBuilderSemantics built from the caller's lists) before and after
+            every API call that receives it (compile, tatsu.parse, code generation, parser
+            construction, parse): a call must not change what it was given.
+ARGUMENTS   the descriptor pool passes caller-owned mutable arguments, and a history step may name an
+            argument slot: every step of the history that names the same (option, value, slot) is
+            given the SAME object ("the list the caller kept from call k").  The oracle of such a step
+            is still the same call alone in a fresh interpreter (where the object is new).
+CONSTANTS   two grammar families with constants and alerts over names that the rule has bound at that
+            point ({who} after who:...), over names it has NOT bound (they stay literal text), bare
+            names and Python literals; the families (and the options of one rule) share the name
+            spellings, so a history parses "who bound" and "who unbound" inputs in one process, on one
+            model, and through different routes.
 THREADS     N in {2,4,8} threads x ~50 inputs on ONE shared compiled model / one shared generated
             parser class (separate instances), switch interval 1e-6 plus seeded yield injection
             from a sys.monitoring LINE tool restricted to tatsu's code objects; results compared
@@ -43,7 +57,11 @@ RULE = ('histories: a case = one seeded sequence of 5-40 API call descriptors (t
         'settings or a ParserConfig, failing parses, to_python_sourcecode->exec->parse, to_python_model->exec->compile, '
         'deferred use of an earlier obtained model/parser object, object sessions = one generated-parser instance or compiled '
         'model reused for a run of calls that pass nothing or exactly one of asmodel/semantics/start/a setting/a ParserConfig, '
-        'semantics objects shared/dropped/re-created) over 6 '
+        'semantics objects shared/dropped/re-created, caller-owned mutable arguments -- constructors / typedefs (dicts, '
+        'modules) / keywords lists, BuilderConfig, ParserConfig, ModelBuilderSemantics(constructors=, typedefs=) -- either '
+        'new per call or ONE object kept by the caller and passed to several calls of the history alone and combined '
+        'with other options (argument sessions), constants and alerts over names bound / not bound in their rule with '
+        'the same name spellings in two grammars) over 8 '
         'grammar texts, run in ONE fresh worker process, every step compared with the same call evaluated alone in a '
         'fresh interpreter; distinct by the sequence of (descriptor, reuse, phase) and, separately, by ordered pair of '
         'same-grammar descriptors (earlier, later) that met in one process.  threads: a case = (grammar template, '
@@ -56,6 +74,11 @@ ASSUMPTIONS = [
     'ParseInfo positions; exceptions by class, position and first message line; memory addresses scrubbed',
     'client objects passed as arguments (semantics, base types, constructors) are stateless, so equal arguments '
     'denote the same call',
+    'a caller-owned argument object passed to several calls denotes, in each of them, the value it was created with '
+    '(no call may alter it: the STATE monitor compares its deep canonical form before and after every call), so the '
+    'fresh-interpreter result of the call with a new object of that value is the oracle of every such call',
+    'canonical form of an argument object: containers, modules and Config dataclasses by content, classes / functions / '
+    "TatSu's own objects by identity, client objects by their public attributes",
     'the documentation promises nothing about sharing one parser INSTANCE between threads: that configuration is run '
     'and counted (shared_instance_divergent_runs) but is outside the statement',
     'schedules are sampled (switch interval 1e-6 + seeded yields at statement boundaries), not enumerated',
@@ -71,7 +94,19 @@ FLOORS = {
               'configured_call_on_reusable_object:config': 500,
               'thread_runs': 32, 'thread_results_compared': 3000, 'post_thread_sequential_compared': 2500,
               'yields_injected': 100000, 'thread_switches_observed': 100000,
-              'distinct_interleavings': 20, 'distinct_nontrivial': 3000},
+              'distinct_interleavings': 20, 'distinct_nontrivial': 3000,
+              # caller-owned mutable arguments: snapshotted around every call; kept objects passed to another call
+              'argument_objects_snapshotted': 2000, 'calls_argument_monitored:compile': 1800,
+              'calls_argument_monitored:tatsu.parse': 350, 'calls_argument_monitored:parse': 2400,
+              'kept_argument_object_passed_to_another_call': 250,
+              'kept_argument_object_passed_to_another_call:constructors': 100,
+              'kept_argument_object_passed_to_another_call:typedefs': 60,
+              'kept_argument_object_passed_to_another_call:builderconfig': 12,
+              'kept_argument_object_passed_again:config': 35,
+              'thread_run_argument_objects_snapshotted': 250,
+              # constants / alerts over a name that is not bound, after an earlier parse of the process bound that name
+              'constant_parses_compared': 1000,
+              'constant_over_unbound_name_after_that_name_was_bound_in_an_earlier_parse': 700},
     'thorough': {'histories': 4000, 'steps_compared': 55000, 'steps_agree': 48000,
                  'deferred_or_shared_object_uses': 11000, 'deferred_uses': 2800, 'parses_state_monitored': 40000,
                  'fresh_evaluations': 700, 'fresh_determinism_checked': 60,
@@ -83,7 +118,17 @@ FLOORS = {
                  'configured_call_on_reusable_object:config': 8000,
                  'thread_runs': 700, 'thread_results_compared': 60000, 'post_thread_sequential_compared': 55000,
                  'yields_injected': 2500000, 'thread_switches_observed': 2500000,
-                 'distinct_interleavings': 400, 'distinct_nontrivial': 30000},
+                 'distinct_interleavings': 400, 'distinct_nontrivial': 30000,
+                 'argument_objects_snapshotted': 30000, 'calls_argument_monitored:compile': 27000,
+                 'calls_argument_monitored:tatsu.parse': 5000, 'calls_argument_monitored:parse': 40000,
+                 'kept_argument_object_passed_to_another_call': 3500,
+                 'kept_argument_object_passed_to_another_call:constructors': 1400,
+                 'kept_argument_object_passed_to_another_call:typedefs': 800,
+                 'kept_argument_object_passed_to_another_call:builderconfig': 170,
+                 'kept_argument_object_passed_again:config': 500,
+                 'thread_run_argument_objects_snapshotted': 3000,
+                 'constant_parses_compared': 15000,
+                 'constant_over_unbound_name_after_that_name_was_bound_in_an_earlier_parse': 10000},
 }
 PEAK_COUNTERS = ('peak_compiled_grammar_cache', 'peak_bind_cache', 'peak_semantic_action_cache', 'pool_size',
                  'aux_pool_size', 'fresh_evaluations', 'fresh_determinism_checked')
@@ -265,8 +310,9 @@ def sibling_closure(pool):
     for ds in byfam.values():
         for p in ds:
             for v in ds:
-                if p is v or not same_cache_entry(p, v) or v.get('tag') == 'one':
-                    continue        # (siblings of the one-argument object calls are evaluated on demand)
+                if p is v or not same_cache_entry(p, v) or v.get('tag') == 'one' or 'arg' in (p.get('tag'), v.get('tag')):
+                    continue        # (siblings of the one-argument object calls and of the calls with caller-owned
+                    #                  mutable arguments are evaluated on demand)
                 for v2, _sig, _txt, _lvl in substitutions(p, v, compile_level_only=True):
                     k = C.desc_key(v2)
                     if k not in have:
@@ -332,6 +378,9 @@ def gen_history(rng, pool, byfam):
     focus = rng.sample(fams, rng.choice((1, 1, 2, 2, 3)))
     if 'typed' in focus and rng.random() < 0.5 and 'typed2' not in focus:
         focus.append('typed2')          # the two grammars that share class names
+    for a, b in (('const', 'const2'), ('const2', 'const')):
+        if a in focus and b not in focus and rng.random() < 0.6:
+            focus.append(b)             # the two grammars whose constants use the same name spellings
     n = rng.randint(5, 32)
     steps = []
     for _ in range(n):
@@ -349,6 +398,13 @@ def gen_history(rng, pool, byfam):
             st['semslot'] = 1
         if rng.random() < 0.06:
             st['drop'] = True
+        # caller-owned mutable arguments (lists, configuration objects): kept in a variable and passed again by every
+        # later call of the history that names the same value and slot, or made anew for this call
+        r = rng.random()
+        if r < 0.40:
+            st['argslot'] = 0
+        elif r < 0.55:
+            st['argslot'] = 1
         steps.append(st)
     # object sessions: ONE generated-parser instance / compiled model used for a run of calls whose argument sets
     # vary -- a call passing exactly one thing (asmodel, semantics, start, a setting, a ParserConfig), then the bare
@@ -363,11 +419,36 @@ def gen_history(rng, pool, byfam):
         if not bare or not conf:
             continue
         session = []
+        kept = rng.choice((None, 0, 1))     # the ParserConfig objects of the session: new per call, or kept and passed again
         for _ in range(rng.randint(2, 5)):
             session.append({'desc': rng.choice(conf), 'reuse': 'obj', 'session': True})
             if rng.random() < 0.25:
                 session.append({'desc': rng.choice(conf), 'reuse': 'obj', 'session': True})
             session.append({'desc': rng.choice(bare), 'reuse': 'obj', 'session': True})
+        if kept is not None:
+            for st in session:
+                st['argslot'] = kept
+        if rng.random() < 0.5:
+            at = rng.randrange(len(steps) + 1)
+            steps[at:at] = session
+        else:
+            pos = sorted(rng.randrange(len(steps) + 1) for _ in session)
+            for off, (at, st) in enumerate(zip(pos, session)):
+                steps.insert(at + off, st)
+    # argument sessions: ONE constructors list / typedefs list / BuilderConfig / keywords list ... kept by the caller and
+    # passed to a run of calls that combine it with other options (alone, with typedefs, inside a BuilderConfig, ...)
+    for _ in range(rng.choice((0, 0, 1, 1, 2))):
+        fam = rng.choice([f for f in focus if f in ARG_FAMS] or ['typed'])
+        group = [d for f in ARG_FAMS[fam] for d in byfam.get(f, ()) if d.get('tag') == 'arg']
+        if not group:
+            continue
+        slot = rng.choice((0, 1))
+        first = rng.choice(group)
+        theme = rng.choice(sorted(mutable_values(first)) or [None])   # the object the caller keeps: (option, value)
+        same = [d for d in group if theme in mutable_values(d)] or group
+        session = [{'desc': first, 'argslot': slot, 'argsession': True}]
+        for _ in range(rng.randint(1, 3)):
+            session.append({'desc': rng.choice(same if rng.random() < 0.8 else group), 'argslot': slot, 'argsession': True})
         if rng.random() < 0.5:
             at = rng.randrange(len(steps) + 1)
             steps[at:at] = session
@@ -387,9 +468,45 @@ def gen_history(rng, pool, byfam):
     return steps[:48]
 
 
+# families with descriptors that pass caller-owned mutable arguments -> the families an argument session draws from
+ARG_FAMS = {'typed': ('typed', 'typed2'), 'typed2': ('typed', 'typed2'), 'kw': ('kw',)}
+CONST_FAMS = ('const', 'const2')
+
+
+MUTABLE_OPTIONS = ('constructors', 'typedefs', 'keywords', 'config', 'builderconfig')
+
+
+def mutable_values(desc):
+    """the caller-owned mutable argument values a descriptor names: {(option, value as JSON)}"""
+    out = set()
+
+    def walk(opts):
+        for o, v in (opts or {}).items():
+            if o in MUTABLE_OPTIONS or (o == 'semantics' and isinstance(v, dict)):
+                out.add((o, json.dumps(v, sort_keys=True)))
+            if isinstance(v, dict):
+                walk(v.get('mbs') if o == 'semantics' else v)
+    for lvl in ('c', 'k', 'p'):
+        walk(desc.get(lvl))
+    return out
+
+
+def const_names(fam, text):
+    """EVIDENCE ONLY (never the oracle): which of the names who / n the constants and alerts that `text` reaches are
+    evaluated over while BOUND in their rule, and which while NOT bound -> (bound, unbound)"""
+    table = {'const': {'hi': ('who', ''), 'tag': ('n', 'who'), 'lit': ('n', ''), 'note': ('', 'who n')},
+             'const2': {'set': ('n', 'who'), 'who': ('who', 'n')}}.get(fam, {})
+    bound, unbound = set(), set()
+    for w in str(text or '').split():
+        if w in table:
+            bound.update(table[w][0].split())
+            unbound.update(table[w][1].split())
+    return bound, unbound
+
+
 def step_sig(st):
     return [st['desc'].get('id') or C.desc_key(st['desc']), st.get('reuse'), st.get('phase'), st.get('semslot'),
-            bool(st.get('drop'))]
+            bool(st.get('drop')), st.get('argslot')]
 
 
 # ----------------------------------------------------------------------------------------------
@@ -429,7 +546,34 @@ def diffkind(exp, obs):
         return 'model-became-ast'
     if strip_bases(exp) == strip_bases(obs):
         return 'node-base-classes'
+    leaves = diff_leaves(exp, obs)
+    if leaves and all(isinstance(e, str) for e, _o in leaves) and any(re.search(r'\{\w+\}', e) for e, _o in leaves):
+        # same tree; only text leaves differ, and where the fresh result has the literal text of a constant /
+        # alert message with a placeholder ({name} left as written: the name is not bound there), this result has a value
+        return 'uninterpolated-constant-text-became-value'
     return 'value'
+
+
+def diff_leaves(a, b, out=None, limit=50):
+    """[(leaf of a, leaf of b)] where two trees of the same shape differ; None when the shapes differ"""
+    out = [] if out is None else out
+    if isinstance(a, dict) and isinstance(b, dict):
+        if set(a) != set(b):
+            return None
+        for k in a:
+            if diff_leaves(a[k], b[k], out, limit) is None:
+                return None
+    elif isinstance(a, list) and isinstance(b, list):
+        if len(a) != len(b):
+            return None
+        for x, y in zip(a, b):
+            if diff_leaves(x, y, out, limit) is None:
+                return None
+    elif isinstance(a, (dict, list)) or isinstance(b, (dict, list)):
+        return None
+    elif a != b and len(out) < limit:
+        out.append((a, b))
+    return out
 
 
 def class_bases(r, out):
@@ -487,7 +631,7 @@ def synth_names(r):
     return {c[len(SYNTH_PREFIX):] for c in class_bases(r, {}) if c.startswith(SYNTH_PREFIX)}
 
 
-def explanations(steps, results, k, fresh):
+def explanations(steps, results, k, fresh, hist=None):
     """yields (mechanisms [(sig, text)], poisoner step indices).
     A mechanism explains the divergence when the observed result EQUALS the fresh result of the
     victim call with arguments taken from an earlier same-grammar call (leak), and/or differs from
@@ -496,6 +640,17 @@ def explanations(steps, results, k, fresh):
     v = steps[k]['desc']
     obs = results[k]
     exp = fresh.get(v)
+    # 0. the call was given an argument object that the caller kept from an earlier call, and the STATE monitor saw
+    #    that earlier call alter it (checked by re-running the two calls alone in a fresh process)
+    if hist:
+        mine = set(hist.get('kept', {}).get(str(k), []))
+        for ev in hist.get('events', []):
+            both = mine & set(ev.get('kept', []))
+            if ev.get('what') == 'passed-argument' and ev.get('step', k) < k and both:
+                opts = '+'.join(sorted({key.split('=', 1)[0] for key in both}))
+                yield [(f'history/kept-argument-altered-by-earlier-call:{opts}',
+                        f'was given the same {opts} object as the earlier call, which altered it ({", ".join(ev["fields"])})')], \
+                    [ev['step']]
     reg, reg_step = {}, {}
     for j in range(k):
         if results[j] is None:
@@ -582,7 +737,7 @@ def victim_diverges(steps, fresh, want=None):
 
 
 def strip_step(st):
-    d = {k: v for k, v in st.items() if k in ('desc', 'reuse', 'phase', 'semslot', 'drop')}
+    d = {k: v for k, v in st.items() if k in ('desc', 'reuse', 'phase', 'semslot', 'argslot', 'drop')}
     d['desc'] = strip(d['desc'])
     return d
 
@@ -642,14 +797,14 @@ def minimal_candidate(steps, k, poisoners):
     return out + [last]
 
 
-def report_divergence(acc, steps, results, k, fresh, state, origin):
+def report_divergence(acc, steps, results, k, fresh, state, origin, hist=None):
     v = steps[k]['desc']
     obs, exp = results[k], fresh.get(v)
     kind = diffkind(exp, obs)
     acc.count('divergences')
     acc.count('divergence_kind:' + kind)
     n_tried = 0
-    for mechs, poisoners in explanations(steps, results, k, fresh):
+    for mechs, poisoners in explanations(steps, results, k, fresh, hist):
         key = tuple(m[0] for m in mechs)
         cand = minimal_candidate(steps, k, poisoners)
         verified = None
@@ -738,6 +893,13 @@ def short(r):
 
 def state_violation(acc, ev, origin):
     what, fields = ev['what'], ev['fields']
+    if what == 'passed-argument':
+        # "a call must not change what it was given": a caller-owned argument object differs after the call
+        call = ev.get('call', 'parse')
+        acc.violation(f'state/passed-argument-changed-by-{call}:' + '+'.join(fields),
+                      f'{call} altered the argument object(s) it was given ({", ".join(fields)}) in {describe(ev["desc"])}',
+                      {'mode': 'state', 'steps': [{'desc': strip(ev['desc'])}], 'origin': origin})
+        return
     sig = f'state/{what}-changed-by-parse:' + '+'.join(fields)
     acc.violation(sig, f'a parse altered the {what} ({fields}) in {describe(ev["desc"])}',
                   {'mode': 'state', 'steps': [{'desc': strip(ev['desc'])}], 'origin': origin})
@@ -759,12 +921,30 @@ def check_history(acc, steps, fresh, state, origin):
     for ev in out['state_events']:
         acc.count('state_alterations')
         state_violation(acc, ev, origin)
+    hist = {'events': out['state_events'], 'kept': out.get('kept_args', {})}
     failed_on = set()
     configured = {}     # object key -> the object now held was given arguments by an earlier call
+    bound_before = set()    # names some constant of an earlier parse of this process was evaluated over while bound
+    kept_by = {}            # kept argument object -> descriptors of the calls it was passed to so far
     for k, st in enumerate(steps):
         d = st['desc']
         if st.get('drop'):
             configured.clear()
+            kept_by.clear()
+        for key in hist['kept'].get(str(k), ()):
+            ids = kept_by.setdefault(key, set())
+            if ids - {d.get('id')}:
+                acc.count('kept_argument_object_passed_to_another_call')
+                acc.count('kept_argument_object_passed_to_another_call:' + key.split('=', 1)[0])
+            ids.add(d.get('id'))
+        if d['fam'] in CONST_FAMS and results[k] is not None and d.get('probe', 'parse') == 'parse' and 'text' in d:
+            bound, unbound = const_names(d['fam'], d['text'])
+            acc.count('constant_parses_compared')
+            if unbound:
+                acc.count('constant_over_unbound_name_compared')
+            if unbound & bound_before:
+                acc.count('constant_over_unbound_name_after_that_name_was_bound_in_an_earlier_parse')
+            bound_before |= bound
         if d['via'] in ('gen', 'compile', 'genmodel'):
             objk0 = C.obtain_key(d)
             if st.get('reuse') != 'obj' or objk0 not in configured:
@@ -798,7 +978,7 @@ def check_history(acc, steps, fresh, state, origin):
         if results[k] == fresh.get(d):
             acc.count('steps_agree')
         else:
-            report_divergence(acc, steps, results, k, fresh, state, origin)
+            report_divergence(acc, steps, results, k, fresh, state, origin, hist)
     acc.nontriv('hist', [step_sig(s) for s in steps])
     return results
 
@@ -928,9 +1108,11 @@ def replay(w, acc):
 MANIFEST = {
     'technique': 'runtime monitoring: fresh-interpreter oracle over seeded API call histories, state snapshots around '
                  'every parse, and thread runs with yield injection compared with sequential results',
-    'level_text': 'seeded random histories (5-40 calls) over a pool of API call descriptors sharing 6 grammar texts and '
+    'level_text': 'seeded random histories (5-40 calls) over a pool of API call descriptors sharing 8 grammar texts and '
                   'differing in options are executed in long-lived worker processes; every step is compared with the same '
-                  'call evaluated alone in a fresh interpreter; model/config snapshots bracket every parse; N in {2,4,8} '
+                  'call evaluated alone in a fresh interpreter; model/config snapshots bracket every parse and deep '
+                  'snapshots of every caller-owned mutable argument (lists, type containers, config objects, semantics) '
+                  'bracket every call, with argument objects kept and passed again across calls of a history; N in {2,4,8} '
                   'threads parse ~50 inputs on one shared compiled model / generated parser class under switch interval '
                   '1e-6 with seeded sys.monitoring LINE yields and are compared with the sequential results.  exploration '
                   'is the right level: the property quantifies over all finite call histories and all schedules',
